@@ -22,6 +22,7 @@ import trcorr
 import scopecorr
 import corecorr
 import heapcorr
+import collcorr
 
 LEVEL = "proof"
 FINDINGS = os.path.join(C.VERIF, "findings", "C01")
@@ -189,6 +190,18 @@ def check(ctx, build=None):
                     found = True
                     ctx.violation("counterexample", "heap: native Go and the emitted GooseLang disagree on a program of struct values, pointers, cells and slices",
                                   {"proto": "heap", "seed": ts, "function": bad["function"], "go_source": bad["go"], "tokens": bad.get("line")},
+                                  expected={"go": bad.get("native_go")}, observed={"gooselang": bad.get("interpreter_on_emitted"), "model_target_semantics": bad.get("model_target_semantics"), "model_go_semantics": bad.get("model_go_semantics")})
+        # ---- the collections model (maps, two-result lookup, delete, append/copy with capacities, range loops) against the real translator
+        for ts in range(ctx.seed * 40 + 1700, ctx.seed * 40 + 1700 + (2 if ctx.tier == "quick" else 30)):
+            st, bad = collcorr.run(ts, 30, scratch)
+            for k in ("functions", "accepted", "rejected", "panicking"):
+                stats["coll_" + k] += st.get(k, 0)
+            if bad and not any(b["name"].startswith("coll:") for b in build.broken):
+                build.broken.append({"kind": "correspondence", "name": "coll: Model.Coll.tr / its two semantics vs the tree goose emits / native Go / the interpreter", "detail": json.dumps(bad, default=str)[:2500]})
+                if bad["what"].startswith("values differ") and not found:
+                    found = True
+                    ctx.violation("counterexample", "collections: native Go and the emitted GooseLang disagree on a program of maps, slices, append, copy and range loops",
+                                  {"proto": "coll", "seed": ts, "function": bad["function"], "go_source": bad["go"], "tokens": bad.get("line")},
                                   expected={"go": bad.get("native_go")}, observed={"gooselang": bad.get("interpreter_on_emitted"), "model_target_semantics": bad.get("model_target_semantics"), "model_go_semantics": bad.get("model_go_semantics")})
         # ---- known findings: replay the committed witnesses
         known = {e["key"]: e for e in C.load_known("C01") if e.get("status") == "known"}
